@@ -125,7 +125,9 @@ pub fn run_front(main: &Path, incs: &[PathBuf], entry: &str, allow_ub: bool) -> 
         struct_verifier::StructVerifier::run_pass(&store, &order).map_err(|e| e.to_string())?;
         *stage.borrow_mut() = 5;
         let m = mir::parse_to_mir(&ast, &mut store);
-        if entry == "cli" {
+        // lib.rs runs the verifier since the repair of the library entry point; the driver passes what
+        // the translator read from idlc/src/lib.rs
+        if entry == "cli" || std::env::var("VERIF_LIB_RUNS_VERIFIER").as_deref() == Ok("1") {
             *stage.borrow_mut() = 6;
             interface_verifier::InterfaceVerifier::new(&m).run_pass();
         }
